@@ -314,6 +314,80 @@ impl<'a> StructureScanState<'a> {
         }
     }
 
+    /// Check a directory against the allow/deny lists. The first applicable clause reports,
+    /// as for files: global allowlist, global deny (directory patterns, then `deny_dirs`)
+    /// unless the scope's allowlist admits the directory, then the scope's own lists.
+    fn check_directory_placement(&mut self, path: &Path) {
+        let Some(cfg) = self.structure_config else {
+            return;
+        };
+
+        // Find matching per-rule for parent directory (needed for override checks)
+        let matching_rule = path
+            .parent()
+            .and_then(|p| cfg.find_matching_allowlist_rule(p));
+
+        // Check global level directory patterns
+        if cfg.has_global_dir_allowlist() {
+            // Allow mode: directory must match global allowlist
+            if !cfg.dir_matches_global_allow(path) {
+                self.result
+                    .allowlist_violations
+                    .push(StructureViolation::disallowed_directory(
+                        path.to_path_buf(),
+                        "global".to_string(),
+                    ));
+                return;
+            }
+        } else {
+            // Check if a per-rule allow would override global deny
+            let overridden_by_rule = matching_rule
+                .is_some_and(|rule| rule.has_dir_allowlist() && rule.dir_matches(path));
+
+            // Deny mode: directory-only deny patterns (patterns ending with `/`), then
+            // deny_dirs (basename-only matching from structure.deny_dirs)
+            if !overridden_by_rule
+                && let Some(pattern) = cfg
+                    .dir_matches_global_deny(path)
+                    .or_else(|| cfg.dir_matches_global_deny_basename(path))
+            {
+                self.result
+                    .allowlist_violations
+                    .push(StructureViolation::denied_directory(
+                        path.to_path_buf(),
+                        "global".to_string(),
+                        pattern,
+                    ));
+                return; // Denied directories don't need further checks
+            }
+        }
+
+        // Check per-rule directory patterns
+        let Some(rule) = matching_rule else {
+            return;
+        };
+        if rule.has_dir_allowlist() {
+            // Allow mode: directory must match allowlist
+            if !rule.dir_matches(path) {
+                self.result
+                    .allowlist_violations
+                    .push(StructureViolation::disallowed_directory(
+                        path.to_path_buf(),
+                        rule.scope.clone(),
+                    ));
+            }
+        } else if let Some(pattern) = rule.dir_matches_deny(path) {
+            // Deny mode: check per-rule deny_dirs
+            self.result
+                .allowlist_violations
+                .push(StructureViolation::denied_directory(
+                    path.to_path_buf(),
+                    rule.scope.clone(),
+                    pattern,
+                ));
+        }
+    }
+
     fn process_directory(&mut self, path: &Path, depth: usize) {
         // Check scanner_exclude - skip entry entirely
         if let Some(cfg) = self.structure_config
@@ -322,78 +396,8 @@ impl<'a> StructureScanState<'a> {
             return;
         }
 
-        // Find matching per-rule for parent directory (needed for override checks)
-        let matching_rule = self.structure_config.and_then(|cfg| {
-            path.parent()
-                .and_then(|p| cfg.find_matching_allowlist_rule(p))
-        });
-
-        // Check global level directory patterns
-        if let Some(cfg) = self.structure_config {
-            if cfg.has_global_dir_allowlist() {
-                // Allow mode: directory must match global allowlist
-                if !cfg.dir_matches_global_allow(path) {
-                    self.result.allowlist_violations.push(
-                        StructureViolation::disallowed_directory(
-                            path.to_path_buf(),
-                            "global".to_string(),
-                        ),
-                    );
-                }
-            } else {
-                // Check if a per-rule allow would override global deny
-                let overridden_by_rule = matching_rule
-                    .is_some_and(|rule| rule.has_dir_allowlist() && rule.dir_matches(path));
-
-                if !overridden_by_rule {
-                    // Deny mode: check directory-only deny patterns (patterns ending with `/`)
-                    if let Some(pattern) = cfg.dir_matches_global_deny(path) {
-                        self.result.allowlist_violations.push(
-                            StructureViolation::denied_directory(
-                                path.to_path_buf(),
-                                "global".to_string(),
-                                pattern,
-                            ),
-                        );
-                    }
-
-                    // Check deny_dirs (basename-only matching from structure.deny_dirs)
-                    if let Some(pattern) = cfg.dir_matches_global_deny_basename(path) {
-                        self.result.allowlist_violations.push(
-                            StructureViolation::denied_directory(
-                                path.to_path_buf(),
-                                "global".to_string(),
-                                pattern,
-                            ),
-                        );
-                    }
-                }
-            }
-        }
-
-        // Check per-rule directory patterns
-        if let Some(rule) = matching_rule {
-            if rule.has_dir_allowlist() {
-                // Allow mode: directory must match allowlist
-                if !rule.dir_matches(path) {
-                    self.result.allowlist_violations.push(
-                        StructureViolation::disallowed_directory(
-                            path.to_path_buf(),
-                            rule.scope.clone(),
-                        ),
-                    );
-                }
-            } else if let Some(pattern) = rule.dir_matches_deny(path) {
-                // Deny mode: check per-rule deny_dirs
-                self.result
-                    .allowlist_violations
-                    .push(StructureViolation::denied_directory(
-                        path.to_path_buf(),
-                        rule.scope.clone(),
-                        pattern,
-                    ));
-            }
-        }
+        // Placement: at most one violation per directory (like files); counting goes on below
+        self.check_directory_placement(path);
 
         // Check count_exclude
         let is_count_excluded = self
